@@ -65,9 +65,37 @@ def _target_writes(t: ast.AST, stmt: ast.AST, self_name: str, is_del: bool = Fal
     return [Write(attr, "attr", stmt, sub=path[0][1])]
 
 
-def writes_in(func: ast.AST, cls_name: str | None = None, self_name: str = "self") -> list[Write]:
-    """Direct writes to ``self`` attributes in the body of ``func``."""
+def local_aliases(func: ast.AST, self_name: str = "self") -> dict[str, list[str]]:
+    """Local names bound to ``self.<attr>`` objects: ``d = self.a`` and ``for d in [self.a, self.b]``."""
+    out: dict[str, list[str]] = {}
+    for s in stmts_of(func):
+        if isinstance(s, ast.Assign) and len(s.targets) == 1 and isinstance(s.targets[0], ast.Name):
+            v = s.value
+            if isinstance(v, ast.Attribute) and isinstance(v.value, ast.Name) and v.value.id == self_name:
+                out.setdefault(s.targets[0].id, []).append(v.attr)
+        elif isinstance(s, (ast.For, ast.AsyncFor)) and isinstance(s.target, ast.Name) and isinstance(s.iter, (ast.List, ast.Tuple)):
+            attrs = []
+            for e in s.iter.elts:
+                if isinstance(e, ast.Attribute) and isinstance(e.value, ast.Name) and e.value.id == self_name:
+                    attrs.append(e.attr)
+            if attrs and len(attrs) == len(s.iter.elts):
+                out.setdefault(s.target.id, []).extend(attrs)
+    return out
+
+
+def writes_in(func: ast.AST, cls_name: str | None = None, self_name: str = "self", *, aliases: bool = False) -> list[Write]:
+    """Direct writes to ``self`` attributes in the body of ``func``.
+
+    With ``aliases`` the writes through local names bound to ``self.<attr>`` count as writes to
+    every attribute the name may stand for.
+    """
     out: list[Write] = []
+    if aliases:
+        al = local_aliases(func, self_name)
+        for name, attrs in al.items():
+            for w in _bare_name_writes(func, name):
+                for a in attrs:
+                    out.append(Write(a, w.kind, w.node, key=w.key, method=w.method, sub=w.sub))
     for s in stmts_of(func):
         if isinstance(s, ast.Assign):
             for t in s.targets:
@@ -103,6 +131,35 @@ def writes_in(func: ast.AST, cls_name: str | None = None, self_name: str = "self
         for w in out:
             if w.attr.startswith("_" + cls_name.lstrip("_") + "__"):
                 w.attr = w.attr[len("_" + cls_name.lstrip("_")) :]
+    return out
+
+
+def _bare_name_writes(func: ast.AST, name: str) -> list[Write]:
+    """Writes through a local ``name``: ``name[k] = v``, ``del name[k]``, ``name.pop(k)`` ..."""
+    out: list[Write] = []
+
+    def tgt(t, stmt, is_del=False):
+        if isinstance(t, (ast.Tuple, ast.List)):
+            for e in t.elts:
+                tgt(e, stmt, is_del)
+        elif isinstance(t, ast.Subscript) and isinstance(t.value, ast.Name) and t.value.id == name:
+            out.append(Write(name, "del" if is_del else "item", stmt, key=t.slice))
+        elif isinstance(t, ast.Attribute) and isinstance(t.value, ast.Subscript) and isinstance(t.value.value, ast.Name) and t.value.value.id == name:
+            out.append(Write(name, "itemattr", stmt, key=t.value.slice, sub=t.attr))
+
+    for s in stmts_of(func):
+        if isinstance(s, ast.Assign):
+            for t in s.targets:
+                tgt(t, s)
+        elif isinstance(s, (ast.AugAssign, ast.AnnAssign)):
+            tgt(s.target, s)
+        elif isinstance(s, ast.Delete):
+            for t in s.targets:
+                tgt(t, s, True)
+    for n in walk_body(func):
+        if isinstance(n, ast.Call) and isinstance(n.func, ast.Attribute) and n.func.attr in MUTATING_METHODS:
+            if isinstance(n.func.value, ast.Name) and n.func.value.id == name:
+                out.append(Write(name, "call", n, method=n.func.attr))
     return out
 
 
@@ -164,3 +221,18 @@ def writes_closure(index: Index, cls: ClassInfo, method: str) -> list[tuple[str,
         for w in writes_in(f, c.name):
             res.append((name, w))
     return res
+
+
+def property_aliases(cls: ClassInfo) -> dict[str, str]:
+    """Properties that simply return ``self.<attr>``: property name -> attribute name."""
+    out = {}
+    for name in cls.properties:
+        f = cls.methods.get(name)
+        if f is None:
+            continue
+        body = [s for s in f.body if not (isinstance(s, ast.Expr) and isinstance(s.value, ast.Constant))]
+        if len(body) == 1 and isinstance(body[0], ast.Return):
+            v = body[0].value
+            if isinstance(v, ast.Attribute) and isinstance(v.value, ast.Name) and v.value.id == "self":
+                out[name] = v.attr
+    return out
